@@ -6,11 +6,16 @@ Local Open Scope N_scope.
 (* XML text: what lyxml_dump_text() prints, lyxml_parse_value() reads back unchanged — for element
    content (ends at '<') and attribute values (between double quotes), for every string of characters the lexer
    accepts (any length), whatever follows the terminator (except a CDATA header directly after '<',
-   which XML defines as a continuation of the text). *)
+   which XML defines as a continuation of the text). The printer is the one of the current tree (table scraped
+   into Gen/Consts.v): CR is written as the reference &#xD; and, in attribute values, TAB and LF as &#x9; and
+   &#xA;; the lexer reads these references back as the same bytes.
+   Third component = the lexer's white-space-only flag: it is set iff every byte is white space that was
+   printed raw ([ws_printed]: a reference clears the flag, so a CR never counts and TAB/LF count only in
+   element content). *)
 Theorem C01_xml_text_roundtrip :
   forall attr endc s rest,
     lexable s -> delim_ok attr endc -> starts_with cdata_hdr (endc :: rest) = false ->
-    xml_value endc (xml_esc attr s ++ endc :: rest) = Ok (s, endc :: rest, forallb is_xmlws s).
+    xml_value endc (xml_esc attr s ++ endc :: rest) = Ok (s, endc :: rest, forallb (ws_printed attr) s).
 Proof. exact xml_value_roundtrip. Qed.
 Print Assumptions C01_xml_text_roundtrip.
 
@@ -22,6 +27,18 @@ Theorem C01_xml_text_roundtrip_unicode :
     forallb getutf8_accepts_char cps = true -> delim_ok attr endc ->
     starts_with cdata_hdr (endc :: rest) = false ->
     let s := flat_map utf8_encode cps in
-    xml_value endc (xml_esc attr s ++ endc :: rest) = Ok (s, endc :: rest, forallb is_xmlws s).
+    xml_value endc (xml_esc attr s ++ endc :: rest) = Ok (s, endc :: rest, forallb (ws_printed attr) s).
 Proof. exact xml_text_roundtrip_encoded. Qed.
 Print Assumptions C01_xml_text_roundtrip_unicode.
+
+(* non-vacuity: CR, TAB, LF, every escape class, 2-, 3- and 4-byte characters, as content and as attribute value *)
+Example C01_xml_text_roundtrip_example :
+  let cps := [97; 38; 60; 62; 34; 39; 9; 10; 13; 10; 13; 233; 8364; 128512; 93; 93; 62; 13] in
+  forallb getutf8_accepts_char cps = true /\
+  xml_esc true [97; 13; 9; 10; 98] = [97; 38;35;120;68;59; 38;35;120;57;59; 38;35;120;65;59; 98] /\
+  xml_esc false [97; 13; 9; 10; 98] = [97; 38;35;120;68;59; 9; 10; 98] /\
+  xml_value 60 (xml_esc false (flat_map utf8_encode cps) ++ [60; 47; 97; 62]) =
+    Ok (flat_map utf8_encode cps, [60; 47; 97; 62], false) /\
+  xml_value 34 (xml_esc true (flat_map utf8_encode cps) ++ [34; 47; 62]) =
+    Ok (flat_map utf8_encode cps, [34; 47; 62], false).
+Proof. exact xml_roundtrip_example. Qed.
